@@ -612,6 +612,21 @@ func (r *FnRun) callByContract(fr *Frame, st *State, ct *Contract, names []strin
 					st.ghost[g] = r.fresh("G_"+g, old.Sort)
 				}
 			}
+			// ghosts the callee assigns at its exits ("exitghost") are part of
+			// its frame as well
+			for _, gs := range ct.ExitGhost {
+				name := ""
+				switch t := gs.Target.(type) {
+				case SCall:
+					name = t.Fun
+				case SIdent:
+					name = t.Name
+				}
+				if gd, ok := r.e.cs.Ghosts[name]; ok {
+					old := r.ghostTerm(st, gd)
+					st.ghost[name] = r.fresh("G_"+name, old.Sort)
+				}
+			}
 			r.note("%s has no modifies clause: inferred frame used at call sites", ct.Name)
 		} else if ct.Kind != "func" {
 			// an assumed (interface / external) contract states everything its
